@@ -10,7 +10,7 @@
 EXTENDS LogixOps
 
 \* ---- text of an operation: NAME[a-b]=(TYPE)v,v  /  @c/i/a[a-b]
-Chr(c) == CASE c = 65 -> "A" [] c = 66 -> "B" [] c = 67 -> "C" [] c = 68 -> "D" [] c = 84 -> "T" [] c = 85 -> "U" [] c = 98 -> "b"
+Chr(c) == CASE c = 65 -> "A" [] c = 66 -> "B" [] c = 67 -> "C" [] c = 68 -> "D" [] c = 84 -> "T" [] c = 85 -> "U" [] c = 87 -> "W" [] c = 88 -> "X" [] c = 98 -> "b"
             [] c = 95 -> "_" [] c = 51 -> "3" [] c = 97 -> "a" [] c = 46 -> "." [] OTHER -> "?"
 RECURSIVE Str(_)
 Str(cs) == IF cs = <<>> THEN "" ELSE Chr(cs[1]) \o Str(Tail(cs))
@@ -37,7 +37,8 @@ Frag(r, frag) == IF ~frag THEN r ELSE [r EXCEPT !.svc = IF r.svc = "read" THEN "
 Fits(r, o, ob) ==
   CASE o.k = "ok" -> ob.st = o.st /\ ob.ext = <<>> /\ ob.ok /\ (IF r.svc \in {"read", "readf"} THEN ob.vals = o.data ELSE ob.vals = <<>>)
     [] o.k = "okbytes" -> ob.st = 0 /\ ob.ok
-    [] o.k = "err" -> ob.st = o.st /\ ob.ext = o.ext /\ ~ob.ok
+    \* (an API that does not expose the extended status reports it as <<65535>>: then only the status is compared)
+    [] o.k = "err" -> ob.st = o.st /\ (ob.ext = o.ext \/ ob.ext = <<65535>>) /\ ~ob.ok
     [] o.k = "anyfail" -> ob.st # 0 /\ ~ob.ok
 RECURSIVE Explains(_, _, _, _, _)
 \* the observations are what issuing the requests one after the other on the tag model yields
